@@ -759,6 +759,7 @@ Proof.
   { destruct (g_erc20_native g).
     - destruct (zhas (k_bond_denom k) (c_denoms c0)); [discriminate|].
       destruct (negb (v_bond_supply_pos v)); [discriminate|].
+      destruct (negb (macc_ok k v)); [discriminate|].
       destruct (deploy (v_next_dyn v) (k_native_meta k) c0) as [c1|] eqn:E1; [|discriminate].
       destruct (deploy_sorted _ _ _ _ E1 I) as (S1 & D1 & A1).
       set (c1' := Cpc (c_params c1) (c_metas c1) (zset (k_bond_denom k) (v_next_dyn v) (c_denoms c1)) (c_allow c1)) in Ec.
@@ -950,4 +951,69 @@ Proof.
   apply export_contracts_ext; [exact Hch|exact Hst|].
   intros a h Hin. pose proof (Hq a) as Ha. unfold q_code in Ha. rewrite <- Hch in Ha.
   rewrite (In_zget _ _ _ (w_ch _ _ (wf_e _ _ (wfb_wf _ _ Hw))) Hin) in Ha. exact Ha.
+Qed.
+
+(* ================================================================== the account environment (x/auth, x/bank) *)
+(* the same environment with another account (or none) at one address *)
+Definition with_acct (v : env) (a : Z) (kd : acct_kind) : env :=
+  Env (v_hash v) (fun x => if x =? a then kd else v_acct v x) (v_next_dyn v) (v_bond_supply_pos v).
+
+(* x/evm InitGenesis looks at the environment only through keccak and the account AT the listed addresses *)
+Lemma import_accts_env : forall v v' l e,
+  (forall c, v_hash v c = v_hash v' c) ->
+  (forall a, In a l -> v_acct v (ga_addr a) = v_acct v' (ga_addr a)) ->
+  import_accts v e l = import_accts v' e l.
+Proof.
+  induction l as [|a r IH]; intros e Hh Ha; cbn [import_accts]; [reflexivity|].
+  assert (E : import_acct v e a = import_acct v' e a).
+  { unfold import_acct, v_base_acct. rewrite (Ha a (or_introl eq_refl)), (Hh (ga_code a)). reflexivity. }
+  rewrite E. destruct (import_acct v' e a); [|reflexivity].
+  apply IH; [exact Hh|]. intros a' Hin. apply Ha. right. exact Hin.
+Qed.
+
+(* x/cpc InitGenesis looks at the environment only through the next dynamic address, the bond supply and the kind of
+   the account at the cpc MODULE address - and at these only if the document sets DeployErc20Native.  Accounts at the
+   addresses the precompiles are deployed to (fixed staking / bech32 addresses, the next dynamic address) play no role. *)
+Lemma import_cpc_env : forall k v v' g,
+  (g_erc20_native g = true ->
+   v_next_dyn v = v_next_dyn v' /\ v_bond_supply_pos v = v_bond_supply_pos v' /\
+   v_acct v (k_module_addr k) = v_acct v' (k_module_addr k)) ->
+  import_cpc k v g = import_cpc k v' g.
+Proof.
+  intros k v v' g H. unfold import_cpc. destruct (g_erc20_native g); [|reflexivity].
+  destruct (H eq_refl) as (Hn & Hs & Hm). unfold macc_ok. rewrite Hn, Hs, Hm. reflexivity.
+Qed.
+
+(* InitChain on an EXPORT depends on the environment only through keccak and the accounts at the exported x/evm
+   addresses: the export never sets DeployErc20Native *)
+Lemma import_export_env : forall k v v' s,
+  (forall c, v_hash v c = v_hash v' c) ->
+  (forall g, In g (export_evm (s_evm s)) -> v_acct v (ga_addr g) = v_acct v' (ga_addr g)) ->
+  import k v (export k s) = import k v' (export k s).
+Proof.
+  intros k v v' s Hh Ha. unfold import.
+  rewrite (import_cpc_env k v v' (export k s)) by (cbn [export g_erc20_native]; discriminate).
+  unfold export at 1 2 4 5. cbn [g_evm_params g_accounts].
+  rewrite (import_accts_env v v' _ _ Hh Ha). reflexivity.
+Qed.
+
+(* ... so an account of ANY kind at an address that is not an exported contract / storage owner - a precompile
+   address, the cpc module address, a predicted contract address - does not change the outcome of the import *)
+Lemma import_export_with_acct : forall k v s a kd,
+  (forall g, In g (export_evm (s_evm s)) -> ga_addr g <> a) ->
+  import k (with_acct v a kd) (export k s) = import k v (export k s).
+Proof.
+  intros k v s a kd Hd. apply import_export_env; [reflexivity|].
+  intros g Hin. unfold with_acct. cbn [v_acct]. destruct (ga_addr g =? a) eqn:E; [|reflexivity].
+  exfalso. apply (Hd g Hin). lia.
+Qed.
+
+(* an import that does set DeployErc20Native fails on a non-module account at the cpc module address *)
+Lemma import_native_needs_module_account : forall k v g,
+  g_erc20_native g = true -> macc_ok k v = false -> import k v g = Panic.
+Proof.
+  intros k v g Hn Hm. unfold import.
+  assert (E : import_cpc k v g = Panic).
+  { unfold import_cpc. rewrite Hn, Hm. cbn [c_denoms zhas zget]. destruct (v_bond_supply_pos v); reflexivity. }
+  rewrite E. destruct (import_accts v (Evm (g_evm_params g) [] [] []) (g_accounts g)); reflexivity.
 Qed.
